@@ -310,8 +310,9 @@ def check_ties(units):
         secs = set(re.findall(r"^\s*Section\s+(\w+)", txt, re.M))
         copy = os.path.join(srcdir, stem + ".v")
         open(copy, "w").write(txt + "\n" + "".join("Print Assumptions %s.\n" % n for n in names))
-        p = run(["timeout", "900", "coqc", "-Q", COQ, "BM", "-Q", GEN, "BMGen", "-Q", srcdir, "BMTieCheck", copy],
-                check=False, timeout=1000)
+        # the largest tie files (cts decryptor closures) take 5-7 min on an idle core; leave room for a loaded machine
+        p = run(["timeout", "2400", "coqc", "-Q", COQ, "BM", "-Q", GEN, "BMGen", "-Q", srcdir, "BMTieCheck", copy],
+                check=False, timeout=2500)
         ok = p.returncode == 0
         msg = "" if ok else p.stdout[-1200:].replace(srcdir, os.path.join(COQ, "Tie"))
         if ok:
